@@ -50,7 +50,24 @@ Inductive case :=
        (js : outcome_of text)     (* print_js_for_operation_document through a recording SourceMapWriter *)
        (ts : option (outcome_of text)) (* print_types_for_operation_document with print_values = true (standalone-ts mode), if run *)
        (whole : text)             (* verif_hooks::print_to_json_string(&document) *)
+       (ld : option (lres text))  (* the loader's emit_js on the source files (child process; LPanic = the process died), if run *)
        (names : list (list str)). (* verif_hooks::fragment_names_in_selection_set for every definition, with the printer's map *)
+
+Definition decode_lres (dict : list str) (table : list str) (o : lres text) : lres str :=
+  match o with
+  | LOk ts => LOk (map (decode_text dict table) ts)
+  | LErr m => LErr m
+  | LPanic m => LPanic m
+  | LOutOfFuel => LOutOfFuel
+  end.
+(** an abort of the child process carries no message *)
+Definition lres_eqb (model impl : lres str) : bool :=
+  match model, impl with
+  | LOk x, LOk y => list_eqb str_eqb x y
+  | LErr x, LErr y => str_eqb x y
+  | LPanic _, LPanic _ => true
+  | _, _ => false
+  end.
 
 Definition outcome_eqb (a b : outcome) : bool :=
   match a, b with
@@ -82,7 +99,7 @@ Fixpoint model_names (defs todo : list execdef) : option (list (list str)) :=
 
 Definition agree (c : case) : bool :=
   match c with
-  | CDoc _ d dict table0 js0 ts0 whole0 names =>
+  | CDoc _ d dict table0 js0 ts0 whole0 ld0 names =>
       let table := map (expand dict) table0 in
       let js := decode_outcome dict table js0 in
       let ts := option_map (decode_outcome dict table) ts0 in
@@ -90,6 +107,7 @@ Definition agree (c : case) : bool :=
       option_eqb outcome_eqb (model_outcome d) (Some js)
       && (match ts with Some t => option_eqb outcome_eqb (model_outcome d) (Some t) | None => true end)
       && str_eqb (document_text d) whole
+      && (match ld0 with Some l => lres_eqb (loader_emit_js d) (decode_lres dict table l) | None => true end)
       && option_eqb (list_eqb (list_eqb str_eqb)) (model_names (od_defs d) (od_defs d)) (Some names)
   end.
 
@@ -116,7 +134,7 @@ Definition outcome_ok (doc : list adef) (o : outcome) : bool :=
 
 Definition holds (c : case) : bool :=
   match c with
-  | CDoc accepted d dict table0 js0 ts0 whole0 _ =>
+  | CDoc accepted d dict table0 js0 ts0 whole0 ld0 _ =>
       let table := map (expand dict) table0 in
       let js := decode_outcome dict table js0 in
       let ts := option_map (decode_outcome dict table) ts0 in
@@ -132,6 +150,14 @@ Definition holds (c : case) : bool :=
       (* what the property needs from the real checker (enforced since /repo c67e45e): an accepted document
          has no spread of an undefined fragment anywhere, also not in a fragment no operation spreads *)
       && (if accepted then spreads_defined_b (od_defs d) else true)
+      (* the loader route runs no checker: it must never abort, and for a closed document it must emit the
+         runtime documents *)
+      && (match option_map (decode_lres dict table) ld0 with
+          | None => true
+          | Some (LOk texts) => if closed_doc doc then texts_ok doc doc texts else true
+          | Some (LErr _) => negb (accepted || closed_doc doc)
+          | Some _ => false
+          end)
       && (if accepted || closed_doc doc
           then outcome_ok doc js && (match ts with Some t => outcome_ok doc t | None => true end)
           else true)
